@@ -125,6 +125,12 @@ def run(tier, seed):
             f = {"base": {"train": items}, "layer": "frame", "fault": {"op": "none"}, "kind": "TRAIN"}
             plans.append(("Active", [f]))
             plans.append((states[n % 6], [f]))
+        # faults on the totalLength of EVERY position of a train (values that make position + length pass 0x10000, 0xffff)
+        for ti_, items in enumerate(([{"kind": "ErrInfo"}, {"kind": "Sync"}, {"kind": "ErrInfo"}], [{"kind": "Sync"}, {"kind": "Control", "action": 4}], [{"kind": "UnknownData", "t2": 38}, {"kind": "ErrInfo"}, {"kind": "Sync"}])):
+            for off in range(0, 70, 2 if tier == "quick" else 1):
+                for val in (0xffff, (0x10000 - off) & 0xffff, (0x10000 - off - 1) & 0xffff, (0x10000 - off + 1) & 0xffff, 0x8000, 0xfffe - off):
+                    f = {"base": {"train": items}, "layer": "user", "fault": {"op": "set16le", "off": off, "v": val & 0xffff}, "kind": "TRAIN"}
+                    plans.append(("Active", [f]))
         # pairs of faults within one message
         for _ in range(3000 if tier == "quick" else 200000):
             a = rng.choice(faults)
@@ -137,6 +143,13 @@ def run(tier, seed):
         for s in shorts:
             for (base, layer) in (({"l": "SYNC"}, "user"), ({"l": "FPOTHER", "updates": [{"t": "Other", "code": 5}], "long": False}, "fp"), ({"l": "SYNC"}, "sc"), ({"l": "SYNC"}, "data")):
                 raw_plans.append({"base": base, "layer": layer, "replace": s})
+        # fast-path frames whose header announces the optional parts (secure checksum 0x40, encrypted 0x80, both) with bodies
+        # too short to hold them, every first byte of that kind x body lengths 0..12
+        for b0 in (0x40, 0x80, 0xc0, 0x44, 0x41, 0xfc):
+            for nb in range(0, 13):
+                body = [3, 0, 0, 5, 0, 0, 1, 4, 0, 1, 0, 0][:nb]
+                raw_plans.append({"base": {"l": "SYNC"}, "layer": "frame", "replace": [b0, nb + 2] + body, "state": "Active"})
+                raw_plans.append({"base": {"l": "SYNC"}, "layer": "frame", "replace": [b0, 0x80, nb + 3] + body, "state": "Active" if nb % 2 else states[nb % 6]})
         out_plans = []
         for i, (st, fs) in enumerate(plans):
             steps = [letter(l) for l in PREFIX[st]]
@@ -145,7 +158,7 @@ def run(tier, seed):
             steps += [letter(l) for l in FOLLOW[:3 + i % 5]] + [{"in": {"api": "try_write", "dev": "key"}}]
             out_plans.append({"id": "f%d" % i, "uid": 1004, "steps": steps})
         for i, rp in enumerate(raw_plans):
-            st = states[i % 6]
+            st = rp.get("state", states[i % 6])
             steps = [letter(l) for l in PREFIX[st]]
             steps.append({"hostile": {"base": rp["base"], "layer": rp["layer"], "faults": [{"op": "trunc", "at": 0}, {"op": "append", "bytes": rp["replace"]}]}})
             steps += [letter(l) for l in FOLLOW[:4]]
